@@ -37,6 +37,18 @@ CHECKS = {
    text="Bounded symbolic model checking of the metadata kernels: decodeBinHeader/encodeBinHeader with the real encoding/base64 interpreted on symbolic bytes (padded and unpadded), setOutgoingHeader with reserved names, symbolic near-misses and arbitrary short keys against a header map holding the reserved response headers, newIncomingContext on headers with symbolic values.",
    note="Trusted: go/ssa semantics, engine, z3, context.WithValue stub. Outside: client-visible trailers on gRPC / gRPC-web (needs the serveGRPC driver), handler keys that are not lower-case, HPACK.",
    design="§4 C14"),
+ "C08": dict(
+   text="Bounded symbolic model checking of every size comparison on the receive and send paths with the limits themselves symbolic: readAll / writeAll (unary HTTP), the three stream codecs' limit handling through streamHTTP.RecvMsg, streamGRPC.RecvMsg with a symbolic flag byte and all 2^32 frame lengths and (fake) decompression to an arbitrary length, streamGRPC.SendMsg with independent symbolic send and receive limits. Obligations: no payload larger than the receive limit reaches the codec (measured after decompression); nothing within the limits is refused, exactly-at-limit included.",
+   note="Trusted: go/ssa semantics, engine (witness replay), z3, recording codec, fake compressor (output length unrelated to input), sync.Pool model. Outside: WebSocket (gobwas/ws not encoded; no size check exists there by reading), gzip's real expansion, limit <= 0.",
+   design="§4 C08"),
+ "C06": dict(
+   text="Bounded symbolic model checking of the stream plumbing around the real framing code: streamHTTP.RecvMsg/readMsg/decodeRequestArgs with CodecProto / CodecJSON / codecHTTPBody framing and a recording decoder, over every partition of the request bytes into reads, every EOF placement, every truncation offset and recycled buffers of several capacities; streamHTTP.SendMsg for unary, HttpBody and server-stream replies de-framed by a reference; one gRPC frame per direction. Obligation: the decoder sees exactly the sent payload sequence, then io.EOF (a stream cut inside a message yields the complete prefix and a non-EOF error).",
+   note="Trusted base as C08/C17. Unspecified: an empty request body may produce one body-less first message. Outside (N/A parts): WebSocket, gzip, HTTP/2 flow control, bidirectional interleaving (no goroutine model), gRPC-web framing (pending the serveGRPC driver).",
+   design="§4 C06"),
+ "C04": dict(
+   text="Bounded symbolic model checking of the reply path: negotiateContentType on Accept headers with symbolic tokens and q digits against an RFC 7231 admission reference, arbitrary Accept / Accept-Encoding bytes (no crash, result among the offers), streamHTTP.SendMsg (body = what the codec named by Content-Type produced, HttpBody = raw data under its own type, send limit exact, response_body walks the reply's field), response_body resolution at registration in the reply type.",
+   note="Trusted base as C06. Outside: byte-level JSON / protobuf encoding (stub), Content-Encoding truthfulness (gzip / serveHTTP driver), Accept headers beyond the stated shapes.",
+   design="§4 C04"),
 }
 
 NOT_APPLICABLE = {
